@@ -27,6 +27,22 @@ partial def showVal : Val → String
   | .struct _ => "S"
   | .fn name => "F" ++ name
 
+def showKey : Key → String
+  | .str b => "s," ++ (if b.isEmpty then "-" else hexOfBytes b)
+  | .int n => s!"i,{n}"
+
+/-- constants in the comma-token format of the harness' dump (struct keys in the order given: the harness sorts them) -/
+partial def showConst : Val → String
+  | .nil => "n"
+  | .bool true => "t"
+  | .bool false => "f"
+  | .int n => s!"i,{n}"
+  | .str b => "s," ++ (if b.isEmpty then "-" else hexOfBytes b)
+  | .kw b => "k," ++ (if b.isEmpty then "-" else hexOfBytes b)
+  | .fn name => "F," ++ name
+  | .struct kvs => s!"S,{kvs.length}" ++ String.join (kvs.map (fun kv => "," ++ showKey kv.1 ++ "," ++ showConst kv.2))
+  | _ => "X"
+
 def showErr : Err → String
   | .fuel => "E:fuel"
   | .depth => "E:depth"
@@ -214,15 +230,18 @@ def step (_ : Unit) (toks : List String) : Unit × String :=
       ((), r.getD "bad-op")
     else ((), "bad-op")
   | ["compile", g] =>
-    -- the compile model's words for a source form, and whether they validate against that form
+    -- the compile model (Peg/Compile.lean) on `grammar [main := source, default-peg-grammar entries...]`:
+    -- "B <has_backref> <words> <consts>" in the format of the harness' dump of the REAL peg/compile, then the entry address
     let r : Option String := do
       let (p, _) ← pPatt (g.splitOn ",")
-      match Compile.compile p with
+      let (mainp, dflt) ← (match p with
+        | .grammar ((_, mp) :: dfl) => some (mp, dfl)
+        | _ => none)
+      match Compile.compile dflt mainp with
       | none => pure "-"
-      | some ws =>
-        let P : Program := { bytecode := ws.toArray, constants := #[] }
-        let v := validate (decode P) (Spec.fetch []) 48 0 ⟨[], p⟩
-        pure ("W " ++ ",".intercalate (ws.map toString) ++ (if v then " V1" else " V0"))
+      | some o =>
+        pure (s!"B {if o.hasBackref then 1 else 0} " ++ ",".intercalate (o.code.map toString) ++ s!" {o.consts.length}"
+              ++ String.join (o.consts.map (fun v => "," ++ showConst v)) ++ s!" E{o.entry}")
     ((), r.getD "bad-op")
   | ["validate", bc, consts, g] =>
     -- translation validation of real peg/compile output against the source grammar
